@@ -1,22 +1,24 @@
 import Driver.Util
 import GoMC.Model.Chunk
+import GoMC.Model.ChunkWire
+import GoMC.Model.ChunkSave
 import GoMC.Spec.Chunk
 import GoMC.Spec.NBT
 import GoMC.Spec.Packing
 namespace Driver.C13
 open GoMC GoMC.Spec GoMC.Spec.Chunk Driver
 
-/-! ## line formats (STAGE 1 — see props/C13.json: the wire-level model comparison arrives in stage 2)
+/-! ## line formats
 
 All arguments are `key=value` tokens.  Histories (`hist=`, `dhist=`) are comma separated, fields colon separated:
   `sb:s:i:v` `fb:s:start:cnt:v0:step` `bi:s:i:v` `fbi:s:start:cnt:v0:step` `hm:k:i:v` `fhm:k:start:cnt:v0:step`
   `sl:s:len:a:m` `bl:s:len:a:m` `be:<xz hex2>:y:type:tag:<payload hex>` `st:<hex>`      (`-` = empty history)
 
 `chunk.wire secs= dmode=<empty|hist|wire|self> extra=<hex> reg= nb= air=<id.id.id> hist= dhist=`
-   `=> ok n= len= rn= left= W=<sec/sec/…> Wmb= Wws= R=<sec/sec/…> Rmb= Rws= E=<ent;ent;…>`
+   `=> ok n= len= wd=<digest of the bytes written> rn= left= W=<sec/sec/…> Wmb= Wws= R=<sec/sec/…> Rmb= Rws= E=<ent;ent;…>`
    section = `count.nonair.statesDigest.biomesDigest`; W = the source before writing, R = the destination after reading.
 `chunk.save secs= ypos= via=<mem|nbt> reg= nb= air= hist=`
-   `=> ok W=<sec…> Y=<y.y.…> SH=<six raw-long digests> Sst=<hex> R=<sec…> RH=<six> Rst=<hex>`
+   `=> ok W=<sec…> Y=<y.y.…> SP=<per section: |states palette|.digest(data).|biomes palette|.digest(data)> SH=<six raw-long digests> Sst=<hex> R=<sec…> RH=<six> Rst=<hex>`
    W section = `count.nonair.statesDigest.biomesDigest.statesBits.biomesBits`, R section = `count.nonair.sd.bd.sky.blk`.
 `light.rt used= extra= sky=<hex longs> blk= sl=<len:a:m;…> bl=` `=> ok n= len= rn= left= sky= blk= sl= bl=`
 `save.hm secs= k= longs= => ok | err`   (ChunkFromSave of an empty chunk whose height map k has that many longs; -1 = key absent)
@@ -25,9 +27,11 @@ All arguments are `key=value` tokens.  Histories (`hist=`, `dhist=`) are comma s
 `chunk.rd secs= used= <hex>` `section.rd used= <hex>` `be.rd used= <hex>` `light.rd used= <hex>`
    `=> ok left=<k> | err | panic at=<dir/file> | hang`
 
-In stage 1 the driver's "model" of the two round trips is the array semantics of `Spec/Chunk.lean` applied to the
-history (what was written = what must be read back); the byte counts `n`/`len`/`rn` are taken from the observation
-and only checked for consistency (`n = len = rn`, `left = |extra|`).
+MODEL side: the history is replayed on the byte-level model (`Model/ChunkWire.lean` on top of the palette container,
+BitStorage, field and NBT models): `EmptyChunk`, `SetBlock`, `Set`, `WriteTo` produce the wire bytes, `ReadFrom` runs on
+them in the destination the line names, and the observation is printed from the model's state.
+SPEC side (independent of the model): the array semantics of `Spec/Chunk.lean` folded over the history — what was
+written must be read back, `n = len = rn`, `left = |extra|`.
 -/
 
 def parseNat (s : String) : Option Nat := s.toNat?
@@ -107,81 +111,360 @@ def common (args : List String) : Option Common := do
   let src ← run env (empty secs) hist
   if src.ents.all (fun e => entOk e && entInRange e) then pure { env, air, secs, src } else none
 
+/-! ### the model side: histories replayed on the byte-level model -/
+
+namespace M
+open GoMC.Model GoMC.Model.Chunk
+
+abbrev MChunk := GoMC.Model.Chunk.Chunk
+
+structure Ctx where
+  gbS : Int
+  gbB : Int
+  reg : Nat
+  nb : Nat
+  air : List Nat
+
+def Ctx.isAir (x : Ctx) (v : Int) : Bool := x.air.contains v.toNat
+
+def modSec (c : MChunk) (i : Nat) (f : WSec → Res WSec) : Res MChunk :=
+  match c.secs[i]? with
+  | some s => match f s with
+    | .ok s' => .ok { c with secs := c.secs.set i s' }
+    | .err => .err
+    | .panic => .panic
+  | none => .panic
+
+def loopM {α} (n : Nat) (f : Nat → α → Res α) (a : α) : Res α :=
+  (List.range n).foldl (fun acc k => match acc with | .ok x => f k x | e => e) (.ok a)
+
+def getHM (h : HeightMaps) : Nat → BitStorage
+  | 0 => h.worldSurfaceWG | 1 => h.worldSurface | 2 => h.oceanFloorWG | 3 => h.oceanFloor
+  | 4 => h.motionBlocking | _ => h.motionBlockingNoLeaves
+def setHM (h : HeightMaps) (k : Nat) (b : BitStorage) : HeightMaps :=
+  match k with
+  | 0 => { h with worldSurfaceWG := b } | 1 => { h with worldSurface := b } | 2 => { h with oceanFloorWG := b }
+  | 3 => { h with oceanFloor := b } | 4 => { h with motionBlocking := b } | _ => { h with motionBlockingNoLeaves := b }
+
+def lightOpt (len : Int) (a m : Nat) : Option Bytes :=
+  if len < 0 then none else some ((List.range len.toNat).map fun k => BitVec.ofNat 8 (a + k * m))
+
+def setBlock (x : Ctx) (s : WSec) (i v : Nat) : Res WSec :=
+  match s.setBlock x.isAir (i : Int) (v : Int) with
+  | (.ok _, s') => .ok s'
+  | _ => .panic
+
+def setBiome (s : WSec) (i v : Nat) : Res WSec :=
+  match s.biomes.set (i : Int) (v : Int) with
+  | (.ok _, b) => .ok { s with biomes := b }
+  | _ => .panic
+
+def setHeight (c : MChunk) (k i v : Nat) : Res MChunk :=
+  match (getHM c.hm k).set (i : Int) (v : Int) with
+  | (.ok _, b) => .ok { c with hm := setHM c.hm k b }
+  | _ => .panic
+
+def entRep (e : Spec.Chunk.Ent) : EntRep :=
+  (BitVec.ofNat 8 e.xz, BitVec.ofInt 16 e.y, BitVec.ofInt 32 e.typ, ⟨BitVec.ofNat 8 e.tag, e.data⟩)
+
+def apply (x : Ctx) (c : MChunk) : Op → Res MChunk
+  | .sb s i v => modSec c s fun sec => setBlock x sec i v
+  | .fb s start cnt v0 step => modSec c s fun sec =>
+      loopM cnt (fun k sec => setBlock x sec ((start + k) % 4096) ((v0 + k * step) % x.reg)) sec
+  | .bi s i v => modSec c s fun sec => setBiome sec i v
+  | .fbi s start cnt v0 step => modSec c s fun sec =>
+      loopM cnt (fun k sec => setBiome sec ((start + k) % 64) ((v0 + k * step) % x.nb)) sec
+  | .hm k i v => setHeight c k i v
+  | .fhm k start cnt v0 step =>
+      loopM cnt (fun j c => setHeight c k ((start + j) % 256) ((v0 + j * step) % 2 ^ (hmBitsOf c.secs.length).toNat)) c
+  | .sl s len a m => modSec c s fun sec => .ok { sec with sky := lightOpt len a m }
+  | .bl s len a m => modSec c s fun sec => .ok { sec with blk := lightOpt len a m }
+  | .be e => .ok { c with ents := { elems := c.ents.elems ++ [entRep e], spare := [] } }
+  | .st st => .ok { c with status := st }
+
+def run (x : Ctx) (c : MChunk) (ops : List Op) : Res MChunk :=
+  ops.foldl (fun acc op => match acc with | .ok c => apply x c op | e => e) (.ok c)
+
+def build (x : Ctx) (secs : Nat) (ops : List Op) : Res MChunk :=
+  match emptyChunk x.gbS x.gbB secs with
+  | .ok c => run x c ops
+  | _ => .panic
+
+/-- every position of a container as `Get` reports it (`none`: some `Get` panics) -/
+def allOf (c : PCont) (n : Nat) : Option (List Int) :=
+  let slow : Option (List Int) := (List.range n).mapM fun (k : Nat) =>
+    match c.get (k : Int) with
+    | .ok v => some v
+    | _ => none
+  match c.pal with
+  | .single v => if c.data.vpl = 0 then some (List.replicate n v) else slow
+  | _ => slow
+
+def digestInts (xs : List Int) : String :=
+  hex16 (xs.foldl (fun h v => fnvStep h (UInt64.ofNat (v % 18446744073709551616).toNat)) fnvOff)
+
+def secObs (x : Ctx) (s : WSec) (bits light : Bool) : Option String := do
+  let st ← allOf s.states 4096
+  let bi ← allOf s.biomes 64
+  let nonAir := (st.filter fun v => !x.isAir v).length
+  let base := s!"{s.count.toInt}.{nonAir}.{digestInts st}.{digestInts bi}"
+  let base := if bits then
+      s!"{base}.{(BitVec.ofInt 8 s.states.bits).toNat}.{(BitVec.ofInt 8 s.biomes.bits).toNat}" else base
+  let lightObs (o : Option Bytes) : String := match o with
+    | none => "-"
+    | some bs => digestBytes (bs.toArray.map BitVec.toNat)
+  pure (if light then s!"{base}.{lightObs s.sky}.{lightObs s.blk}" else base)
+
+def secsObs (x : Ctx) (c : MChunk) (bits light : Bool) : Option String := do
+  let parts ← c.secs.mapM fun s => secObs x s bits light
+  pure (if parts.isEmpty then "-" else "/".intercalate parts)
+
+def entsObs (es : Slice EntRep) : String :=
+  if es.elems.isEmpty then "-" else
+  ";".intercalate (es.elems.map fun e =>
+    s!"{hexOfNat 2 e.1.toNat}.{e.2.1.toInt}.{e.2.2.1.toInt}.{e.2.2.2.tag.toNat}.{hexOfBytes e.2.2.2.data}")
+
+def ctxOf (args : List String) : Option Ctx := do
+  let reg ← (← kv args "reg").toNat?
+  let nb ← (← kv args "nb").toNat?
+  let air ← if (kv args "air").isSome then parseAir ((kv args "air").getD "-") else some []
+  pure { gbS := (GoMC.Model.bitLen reg : Nat), gbB := (GoMC.Model.bitLen nb : Nat), reg, nb, air }
+
+/-- the model's observation for a `chunk.wire` line -/
+def wire (args : List String) : Option String := do
+  let x ← ctxOf args
+  let secs ← (← kv args "secs").toNat?
+  let hist ← parseHist (← kv args "hist")
+  let dhist ← parseHist ((kv args "dhist").getD "-")
+  let extra ← parseHex (← kv args "extra")
+  let dmode ← kv args "dmode"
+  match build x secs hist with
+  | .ok src =>
+    let w := src.writeTo x.gbS x.gbB
+    let dst0 : Option (Res MChunk) :=
+      if dmode == "empty" then some (build x secs [])
+      else if dmode == "hist" then some (build x secs dhist)
+      else if dmode == "self" then some (.ok src)
+      else if dmode == "wire" then
+        match build x secs [], build x secs dhist with
+        | .ok d, .ok other =>
+          match Model.Chunk.Chunk.readFrom x.gbS x.gbB d (Stream.ofBytes (other.writeTo x.gbS x.gbB).1) with
+          | (.ok (d', _), _) => some (.ok d')
+          | (.err, _) => some .err
+          | (.panic, _) => some .panic
+        | _, _ => some .panic
+      else none
+    match ← dst0 with
+    | .ok dst =>
+      let wObs ← secsObs x src false false
+      match Model.Chunk.Chunk.readFrom x.gbS x.gbB dst (Stream.ofBytes (w.1 ++ extra)) with
+      | (.ok (d', rn), s') =>
+        let rObs ← secsObs x d' false false
+        pure s!"ok n={w.2} len={w.1.length} wd={digestBytes (w.1.toArray.map BitVec.toNat)} rn={rn} left={s'.flat.length} W={wObs} Wmb={digestLongs src.hm.motionBlocking.data} Wws={digestLongs src.hm.worldSurface.data} R={rObs} Rmb={digestLongs d'.hm.motionBlocking.data} Rws={digestLongs d'.hm.worldSurface.data} E={entsObs d'.ents}"
+      | (.err, s') => pure s!"err left={s'.flat.length}"
+      | (.panic, _) => pure "panic"
+    | .err => pure "err@first"
+    | .panic => pure "panic"
+  | _ => pure "panic"
+
+/-- the registries as the driver sees them: ids describe themselves (that the real description mapping is a
+bijection is what `registry.bijection` establishes on the real tables) -/
+def idReg (x : Ctx) : Registry Int Int :=
+  { descS := fun v => if 0 ≤ v ∧ v < (x.reg : Int) then .ok v else .panic,
+    stateOf := fun d => if 0 ≤ d ∧ d < (x.reg : Int) then some d else none,
+    descB := fun v => if 0 ≤ v ∧ v < (x.nb : Int) then .ok v else .err,
+    biomeOf := fun d => if 0 ≤ d ∧ d < (x.nb : Int) then some d else none,
+    isAir := x.isAir }
+
+def hmSix (h : HeightMaps) : String :=
+  ".".intercalate ((List.range 6).map fun k => digestLongs (getHM h k).data)
+
+def saveHmSix (h : SaveHM) : String :=
+  ".".intercalate ([h.worldSurfaceWG, h.worldSurface, h.oceanFloorWG, h.oceanFloor, h.motionBlocking, h.motionBlockingNoLeaves].map
+    fun o => digestLongs (o.getD []))
+
+/-- the model's observation for a `chunk.save` line -/
+def save (args : List String) : Option String := do
+  let x ← ctxOf args
+  let secs ← (← kv args "secs").toNat?
+  let hist ← parseHist (← kv args "hist")
+  let ypos ← (← kv args "ypos").toInt?
+  match build x secs hist with
+  | .ok src =>
+    let w ← secsObs x src true false
+    match chunkToSave (idReg x) x.gbS x.gbB (BitVec.ofInt 32 ypos) src with
+    | .ok sv =>
+      let ys := if sv.secs.isEmpty then "-" else ".".intercalate (sv.secs.map fun s => toString s.y.toInt)
+      let sp := if sv.secs.isEmpty then "-" else "/".intercalate (sv.secs.map fun s =>
+        s!"{s.states.palette.length}.{digestLongs (s.states.data.getD [])}.{s.biomes.palette.length}.{digestLongs (s.biomes.data.getD [])}")
+      let head := s!"W={w} Y={ys} SP={sp} SH={saveHmSix sv.hm} Sst={hexOfBytes sv.status}"
+      match chunkFromSave (idReg x) x.gbS x.gbB sv with
+      | .ok dst =>
+        let r ← secsObs x dst false true
+        pure s!"ok {head} R={r} RH={hmSix dst.hm} Rst={hexOfBytes dst.status}"
+      | .err => pure s!"err@fromsave {head}"
+      | .panic => pure s!"panic@fromsave {head}"
+    | .err => pure s!"err@tosave W={w}"
+    | .panic => pure "panic"
+  | _ => pure "panic"
+
+/-- the destination `c13UsedChunk(secs)` of the malformed-input stream -/
+def usedChunk (x : Ctx) (secs : Nat) : Res MChunk :=
+  let ops : List Op := (List.range secs).flatMap fun s =>
+    ((List.range 10).map fun k => Op.sb s (k * 7) (1 + k * 3 + s)) ++ ((List.range 5).map fun k => Op.bi s k (k + 1))
+  match build x secs ops with
+  | .ok c =>
+    .ok { c with ents := { elems := [(0x11#8, BitVec.ofNat 16 3, BitVec.ofNat 32 2, ⟨10#8, [0#8]⟩),
+                                     (0x22#8, BitVec.ofNat 16 4, BitVec.ofNat 32 5, ⟨0#8, []⟩)], spare := [] } }
+  | e => e
+
+def usedLight : LightData :=
+  { skyMask := ⟨[1#64, 2#64, 3#64], []⟩, blkMask := ⟨[BitVec.ofInt 64 (-1)], []⟩,
+    sky := ⟨[⟨[1#8, 2#8, 3#8], []⟩, ⟨[4#8], []⟩], []⟩, blk := ⟨[⟨List.replicate 2048 0#8, []⟩], []⟩ }
+
+def outcome {α} (r : Res α × Stream) : String :=
+  match r with
+  | (.ok _, s) => s!"ok left={s.flat.length}"
+  | (.err, _) => "err"
+  | (.panic, _) => "panic"
+
+/-- the model's outcome for a line of the malformed-input stream -/
+def rd (op : String) (args : List String) : Option String := do
+  let input ← parseHex (← args.getLast?)
+  let used := (kv args "used") == some "1"
+  let x : Ctx := { gbS := 15, gbB := 6, reg := 26684, nb := 63, air := [0] }
+  let x := (ctxOf args).getD x
+  let s := Stream.ofBytes input
+  match op with
+  | "chunk.rd" =>
+    let secs ← (← kv args "secs").toNat?
+    match (if used then usedChunk x secs else build x secs []) with
+    | .ok d => pure (outcome (Model.Chunk.Chunk.readFrom x.gbS x.gbB d s))
+    | _ => pure "panic"
+  | "section.rd" =>
+    match (if used then usedChunk x 1 else build x 1 []) with
+    | .ok d => match d.secs with
+      | sec :: _ => pure (outcome (Section.readFrom x.gbS x.gbB sec s))
+      | [] => none
+    | _ => pure "panic"
+  | "be.rd" =>
+    let d : EntRep := if used then (0x33#8, BitVec.ofNat 16 9, BitVec.ofNat 32 7, ⟨10#8, [8#8, 0#8, 1#8, 0x61#8, 0#8, 2#8, 0x68#8, 0x69#8, 0#8]⟩)
+                      else (0#8, 0, 0#32, ⟨0#8, []⟩)
+    pure (outcome (BlockEntity.readFrom d s))
+  | "light.rd" => pure (outcome (lightC.dec (if used then usedLight else freshLight) s))
+  | _ => none
+
+def parseLongsHex (h : String) : Option (List (BitVec 64)) := do
+  let bs ← parseHex h
+  let rec go (bs : Bytes) (fuel : Nat) (acc : List (BitVec 64)) : Option (List (BitVec 64)) :=
+    match fuel with
+    | 0 => none
+    | fuel + 1 =>
+      if bs.isEmpty then some acc.reverse
+      else if bs.length < 8 then none
+      else go (bs.drop 8) fuel (BitVec.ofNat 64 ((bs.take 8).foldl (fun a b => 256 * a + b.toNat) 0) :: acc)
+  go bs (bs.length + 1) []
+
+def hexLongs (ls : List (BitVec 64)) : String :=
+  if ls.isEmpty then "-" else String.join (ls.map fun l => hexOfNat 16 l.toNat)
+
+def parseArrays (s : String) : Option (List (Slice Byte)) :=
+  if s == "-" || s == "" then some [] else
+  (s.splitOn ";").mapM fun p =>
+    match p.splitOn ":" with
+    | [l, a, m] => do
+      let l ← l.toInt?; let a ← a.toNat?; let m ← m.toNat?
+      pure ⟨(lightOpt l a m).getD [], []⟩
+    | _ => none
+
+def arraysObsM (as : Slice (Slice Byte)) : String :=
+  if as.elems.isEmpty then "-" else
+  ";".intercalate (as.elems.map fun a => if a.elems.isEmpty then "0" else digestBytes (a.elems.toArray.map BitVec.toNat))
+
+/-- the model's observation for a `light.rt` line -/
+def lightRT (args : List String) : Option String := do
+  let extra ← parseHex (← kv args "extra")
+  let sky ← parseLongsHex (← kv args "sky")
+  let blk ← parseLongsHex (← kv args "blk")
+  let sl ← parseArrays (← kv args "sl")
+  let bl ← parseArrays (← kv args "bl")
+  let src : LightData := { skyMask := ⟨sky, []⟩, blkMask := ⟨blk, []⟩, sky := ⟨sl, []⟩, blk := ⟨bl, []⟩ }
+  let w := lightC.enc src
+  let dst := if (kv args "used") == some "1" then usedLight else freshLight
+  match lightC.dec dst (Stream.ofBytes (w.1 ++ extra)) with
+  | (.ok (d, rn), s') =>
+    pure s!"ok n={w.2} len={w.1.length} wd={digestBytes (w.1.toArray.map BitVec.toNat)} rn={rn} left={s'.flat.length} sky={hexLongs d.skyMask.elems} blk={hexLongs d.blkMask.elems} sl={arraysObsM d.sky} bl={arraysObsM d.blk}"
+  | (.err, s') => pure s!"err left={s'.flat.length}"
+  | (.panic, _) => pure "panic"
+
+/-- `save.hm`: an empty chunk of `secs` sections, one saved height map replaced -/
+def saveHm (args : List String) : Option String := do
+  let secs ← (← kv args "secs").toNat?
+  let k ← (← kv args "k").toNat?
+  let longs ← (← kv args "longs").toInt?
+  let x : Ctx := { gbS := 15, gbB := 6, reg := 26684, nb := 63, air := [0] }
+  match build x secs [] with
+  | .ok c =>
+    match chunkToSave (idReg x) x.gbS x.gbB 0#32 c with
+    | .ok sv =>
+      let v : Option Longs := if longs < 0 then none else some (List.replicate longs.toNat 0#64)
+      let h := sv.hm
+      let h' : SaveHM := match k with
+        | 0 => { h with worldSurfaceWG := v } | 1 => { h with worldSurface := v } | 2 => { h with oceanFloorWG := v }
+        | 3 => { h with oceanFloor := v } | 4 => { h with motionBlocking := v } | _ => { h with motionBlockingNoLeaves := v }
+      match chunkFromSave (idReg x) x.gbS x.gbB { sv with hm := h' } with
+      | .ok _ => pure "ok"
+      | .err => pure "err"
+      | .panic => pure "panic"
+    | _ => pure "err@tosave"
+  | _ => pure "panic"
+
+end M
+
 /-! ### chunk.wire -/
 
 def wireV (args : List String) (obs : String) : Verdict :=
-  match common args, (kv args "extra").bind parseHex, (kv args "dhist").bind parseHist with
-  | some cm, some extra, some _dhist =>
+  -- `mdl=0`: the line is judged by the independent oracle only (the byte-level model costs time quadratic in the
+  -- size of the wire form); `mdl=1` (default): the byte-level model must reproduce the whole observation
+  let withModel := (kv args "mdl") != some "0"
+  match common args, (kv args "extra").bind parseHex, (if withModel then M.wire args else some "") with
+  | some cm, some extra, some model0 =>
     let toks := obs.splitOn " "
-    -- the number of bytes written cannot be recomputed without the palette model (stage 2): take the observed one
+    -- SPEC: the array semantics of the history; the byte counts only have to be consistent
     let nObs := (kv toks "len").getD "?"
+    let wdObs := (kv toks "wd").getD "?"
     let w := joinSecs (cm.src.secs.toList.map (secBase cm.air))
     let mb := digestLongs (hmRaw cm.src 4)
     let ws := digestLongs (hmRaw cm.src 1)
-    let want := s!"ok n={nObs} len={nObs} rn={nObs} left={extra.length} W={w} Wmb={mb} Wws={ws} R={w} Rmb={mb} Rws={ws} E={entsObs cm.src.ents}"
-    { model := want, spec := if obs == want then none else some ("wire round trip: " ++ firstDiff want obs) }
+    let want := s!"ok n={nObs} len={nObs} wd={wdObs} rn={nObs} left={extra.length} W={w} Wmb={mb} Wws={ws} R={w} Rmb={mb} Rws={ws} E={entsObs cm.src.ents}"
+    { model := if withModel then model0 else want, spec := if obs == want then none else some ("wire round trip: " ++ firstDiff want obs) }
   | _, _, _ => { model := "bad-arg" }
 
 /-! ### chunk.save -/
 
 def toInt8 (v : Int) : Int := (v + 128) % 256 - 128
 
-/-- the width inference of the save loader is sound for width `b` and `n` entries iff `⌊64/(b+1)⌋·size b n < n`
-(theorem `C11_size_rules`); zero bits carries no data and is always read right -/
-def widthUnsound (b n : Nat) : Bool := b != 0 && !decide ((64 / (b + 1)) * size b n < n)
-
-/-- storage width of a container whose wire form announces `b` bits per entry (protocol description of the paletted
-container: blocks 0 / 1–4 → 4 / 5–8 / direct; biomes 0 / 1–3 / direct; direct = bits needed for the registry) -/
-def storageBits (biomes : Bool) (registry b : Nat) : Nat :=
-  if b == 0 then 0
-  else if biomes then (if b ≤ 3 then b else bitLen registry)
-  else if b ≤ 4 then 4 else if b ≤ 8 then b else bitLen registry
-
-def saveMarker : String := "C13.save-width-from-data-length"
-
 def saveV (args : List String) (obs : String) : Verdict :=
-  match common args, (kv args "ypos").bind String.toInt? with
-  | some cm, some ypos =>
+  let withModel := (kv args "mdl") != some "0"
+  match common args, (kv args "ypos").bind String.toInt?, (if withModel then M.save args else some "") with
+  | some cm, some ypos, some model0 =>
     let toks := obs.splitOn " "
     let c := cm.src
-    -- container widths as the implementation reports them (first byte of each container's wire form)
+    -- SPEC: array semantics. The containers' announced widths are representation detail: taken from the observation.
     let wObs : List (List String) := ((kv toks "W").getD "").splitOn "/" |>.map (·.splitOn ".")
-    let bitsOf (i k : Nat) : Nat := (((wObs.getD i []).getD k "0").toNat?).getD 0
+    let bitsOf (i k : Nat) : String := (wObs.getD i []).getD k "?"
     let wWant := joinSecs ((List.range c.secs.size).map fun i =>
       s!"{secBase cm.air (c.secs.getD i default)}.{bitsOf i 4}.{bitsOf i 5}")
     let yWant := if c.secs.isEmpty then "-" else ".".intercalate ((List.range c.secs.size).map fun (i : Nat) => toString (toInt8 (ypos + (i : Int))))
     let sh := hmAll c
     let sst := hexOfBytes c.status
-    let head := s!"W={wWant} Y={yWant} SH={sh} Sst={sst}"
-    let unsS (i : Nat) : Bool := widthUnsound (storageBits false cm.env.reg (bitsOf i 4)) 4096
-    let unsB (i : Nat) : Bool := widthUnsound (storageBits true cm.env.nb (bitsOf i 5)) 64
-    let anyUnsS := (List.range c.secs.size).any unsS
-    if obs.startsWith "panic" then
-      -- a misread direct palette yields ids outside the registry; counting the non-air blocks then indexes out of range
-      let want := s!"panic_at=block/utilfuncs.go@fromsave {head}"
-      if anyUnsS then
-        { model := want, spec := some "ChunkFromSave panicked on a chunk written by ChunkToSave", markers := [saveMarker] }
-      else { model := s!"ok {head} …", spec := some "ChunkFromSave panicked on a chunk written by ChunkToSave" }
-    else
-      let rObs : List (List String) := ((kv toks "R").getD "").splitOn "/" |>.map (·.splitOn ".")
-      let fld (i k : Nat) : String := (rObs.getD i []).getD k "?"
-      let secWant (i : Nat) : List String :=
-        let s := c.secs.getD i default
-        let n := toString (nonAirCount cm.air s.states)
-        [n, n, digestNats s.states, digestNats s.biomes, digestBytes s.sky, digestBytes s.blk]
-      -- fields the known width defect may have changed are taken from the observation; everything else is demanded
-      let excused (i k : Nat) : Bool := (unsS i && k ≤ 2) || (unsB i && k == 3)
-      let secModel (i : Nat) : String :=
-        ".".intercalate ((List.range 6).map fun k => if excused i k then fld i k else (secWant i).getD k "?")
-      let hit := (List.range c.secs.size).any fun i => (List.range 6).any fun k => excused i k && fld i k != (secWant i).getD k "?"
-      let rModel := joinSecs ((List.range c.secs.size).map secModel)
-      let rWant := joinSecs ((List.range c.secs.size).map fun i => ".".intercalate (secWant i))
-      let model := s!"ok {head} R={rModel} RH={sh} Rst={sst}"
-      let want := s!"ok {head} R={rWant} RH={sh} Rst={sst}"
-      if obs == want then { model := want }
-      else if hit then { model, spec := some ("save round trip: " ++ firstDiff want obs), markers := [saveMarker] }
-      else { model := want, spec := some ("save round trip: " ++ firstDiff want obs) }
-  | _, _ => { model := "bad-arg" }
+    let rWant := joinSecs (c.secs.toList.map fun s =>
+      s!"{secBase cm.air s}.{digestBytes s.sky}.{digestBytes s.blk}")
+    -- palette sizes and packed indices of the save form are representation detail: taken from the observation
+    let spObs := (kv toks "SP").getD "?"
+    let want := s!"ok W={wWant} Y={yWant} SP={spObs} SH={sh} Sst={sst} R={rWant} RH={sh} Rst={sst}"
+    { model := if withModel then model0 else want, spec := if obs == want then none else some ("save round trip: " ++ firstDiff want obs) }
+  | _, _, _ => { model := "bad-arg" }
 
 /-! ### save.hm: a saved height map of the wrong length is an error, never a panic -/
 
@@ -189,7 +472,7 @@ def saveHmV (args : List String) (obs : String) : Verdict :=
   match (kv args "secs").bind String.toNat?, (kv args "longs").bind String.toInt? with
   | some secs, some longs =>
     let want := if longs < 0 || longs == (size (hmBits secs) 256 : Int) then "ok" else "err"
-    { model := want, spec := if obs == want then none else some s!"ChunkFromSave with a height map of {longs} longs: expected {want}" }
+    { model := (M.saveHm args).getD "bad-arg", spec := if obs == want then none else some s!"ChunkFromSave with a height map of {longs} longs: expected {want}" }
   | _, _ => { model := "bad-arg" }
 
 /-! ### light.rt -/
@@ -209,8 +492,9 @@ def lightV (args : List String) (obs : String) : Verdict :=
   | some extra, some sky, some blk, some sl, some bl =>
     let toks := obs.splitOn " "
     let nObs := (kv toks "len").getD "?"
-    let want := s!"ok n={nObs} len={nObs} rn={nObs} left={extra.length} sky={sky} blk={blk} sl={sl} bl={bl}"
-    { model := want, spec := if obs == want then none else some ("light block round trip: " ++ firstDiff want obs) }
+    let wdObs := (kv toks "wd").getD "?"
+    let want := s!"ok n={nObs} len={nObs} wd={wdObs} rn={nObs} left={extra.length} sky={sky} blk={blk} sl={sl} bl={bl}"
+    { model := (M.lightRT args).getD "bad-arg", spec := if obs == want then none else some ("light block round trip: " ++ firstDiff want obs) }
   | _, _, _, _, _ => { model := "bad-arg" }
 
 /-! ### PackXZ / UnpackXZ -/
@@ -236,13 +520,14 @@ def unpackV (h obs : String) : Verdict :=
 
 /-! ### malformed input: outcome class only (the clause is C08's; the stream lives here) -/
 
-def rdV (obs : String) : Verdict :=
-  if obs == "err" || obs.startsWith "ok left=" then { model := obs }
-  else if obs.startsWith "panic at=nbt/" then
-    { model := obs, spec := some "panic on peer-controlled input inside package nbt", markers := ["C13.panic-in-nbt-decoder"] }
-  else if obs == "panic at=level/palette.go" then
-    { model := obs, spec := some "panic on peer-controlled input inside level/palette.go", markers := ["C13.panic-in-palette-reader"] }
-  else { model := "ok|err", spec := some ("a decoder of level/chunk.go must return on peer-controlled input: " ++ obs.take 60) }
+def rdV (op : String) (args : List String) (obs : String) : Verdict :=
+  -- MODEL: the byte-level decoder models on the same bytes, outcome class and bytes left.
+  -- SPEC (C08's clause, checked here because the stream lives here): a decoder fed bytes returns.
+  let model := (M.rd op args).getD "bad-arg"
+  let cls := (obs.splitOn " ").headD ""
+  { model := if obs.startsWith "panic" && model == "panic" then obs else model,
+    spec := if cls == "ok" || cls == "err" then none
+            else some ("a decoder of level/chunk.go must return on peer-controlled input: " ++ obs.take 60) }
 
 def okV (what obs : String) : Verdict :=
   { model := "ok", spec := if obs == "ok" then none else some (what ++ ": " ++ obs.take 120) }
@@ -258,10 +543,10 @@ def handle (op : String) (args : List String) (obs : String) : Option Verdict :=
   | "registry.bijection", _ => some (okV "block-state <-> (name, properties) is not a bijection over the registry" obs)
   | "registry.viasave", _ => some (okV "a registry state does not survive ChunkToSave/ChunkFromSave" obs)
   | "registry.biomes", _ => some (okV "biome id <-> name is not a bijection" obs)
-  | "chunk.rd", _ => some (rdV obs)
-  | "section.rd", _ => some (rdV obs)
-  | "be.rd", _ => some (rdV obs)
-  | "light.rd", _ => some (rdV obs)
+  | "chunk.rd", _ => some (rdV op args obs)
+  | "section.rd", _ => some (rdV op args obs)
+  | "be.rd", _ => some (rdV op args obs)
+  | "light.rd", _ => some (rdV op args obs)
   | _, _ => none
 
 end Driver.C13
